@@ -3,7 +3,8 @@
 (* Volume searchlights of rsatoolbox.util.searchlight (property C19).      *)
 (*                                                                         *)
 (* Integer geometry.  A voxel is a triple <<x,y,z>> of a volume of shape   *)
-(* <<nx,ny,nz>> (0-based).  A radius is a rational <<rn,rd>>; voxel v is   *)
+(* <<nx,ny,nz>> (0-based).  A radius is a rational <<rn,rd>> or the square *)
+(* root of a rational <<k,m,1>>; voxel v is                                *)
 (* in the searchlight of centre c iff d(c,v) < r, i.e. iff                 *)
 (*        rd^2 * d2(c,v) < rn^2          (for r = m/2 : 4*d2 < m^2)        *)
 (* - STRICTLY below the radius, only in-volume voxels.  Linear indices are *)
@@ -20,6 +21,11 @@
 (* Sub-models (selected by INIT/NEXT in the configuration):                *)
 (*   Vol   all masks of small volumes x radii x thresholds, stages of the  *)
 (*         code Scan -> Filter -> Ravel; theorems on the definition; Emit. *)
+(*   Topo  structured mask topologies (holes, shells, disconnected slabs,  *)
+(*         single voxels, checkerboards, balls) on larger volumes; the     *)
+(*         stages / theorems / emission of Vol.                            *)
+(*   Walk  random walks over masks, radii, thresholds for tlc -simulate;   *)
+(*         WalkMonotone (a growing mask never loses a centre).             *)
 (*   Nb    one centre of a volume: _get_searchlight_neighbors.             *)
 (*   Big   a few large masks (to cross the chunking limit); Emit.          *)
 (*   Chunk get_searchlight_RDMs as a loop over Chunks(n) writing per-centre*)
@@ -55,8 +61,13 @@ Ravel(s, v) == (v[1] * s[2] + v[2]) * s[3] + v[3]               \* numpy C order
 Unravel(s, k) == <<k \div (s[2] * s[3]), (k \div s[3]) % s[2], k % s[3]>>
 LinSet(s) == 0..NVox(s)-1
 D2(a, b) == (a[1]-b[1])*(a[1]-b[1]) + (a[2]-b[2])*(a[2]-b[2]) + (a[3]-b[3])*(a[3]-b[3])
-InSphere(c, v, r) == r[2] * r[2] * D2(c, v) < r[1] * r[1]        \* d < r, exact
-Near(a, b, r) == r[2] * Abs(a - b) < r[1]                        \* |a-b| < r  (the code's pre-filter)
+\* A radius is <<rn, rd>> (the rational rn/rd) or <<k, m, 1>> (the IRRATIONAL sqrt(k/m): the float a user gets
+\* from numpy.sqrt; lattice points at squared distance exactly k/m are then at distance == radius and must be
+\* excluded).  Rsq(r) = r^2 as <<num, den>>; all comparisons are made on squares, exactly.
+Rsq(r) == IF Len(r) = 3 THEN <<r[1], r[2]>> ELSE <<r[1] * r[1], r[2] * r[2]>>
+RadLeq(r1, r2) == Rsq(r1)[1] * Rsq(r2)[2] <= Rsq(r2)[1] * Rsq(r1)[2]         \* r1 <= r2
+InSphere(c, v, r) == Rsq(r)[2] * D2(c, v) < Rsq(r)[1]            \* d < r, exact
+Near(a, b, r) == Rsq(r)[2] * (a - b) * (a - b) < Rsq(r)[1]       \* |a-b| < r  (the code's pre-filter)
 
 \* the definition
 Neighbours(c, r, s) == {v \in Vox(s) : InSphere(c, v, r)}
@@ -123,25 +134,78 @@ ThresholdMonotone ==          \* a stricter threshold never accepts more centres
   Done => /\ \A t \in Thresholds : (t[1] * geo.thr[2] >= geo.thr[1] * t[2]) =>
                ToSet(GoodCentres(geo.shape, geo.mask, geo.rad, t)) \subseteq ToSet(geo.centres)
           /\ (geo.mask = LinSet(geo.shape) => ToSet(geo.centres) = LinSet(geo.shape))
-RadiusMonotone == Full => \A r \in Radii : (r[1] * geo.rad[2] <= geo.rad[1] * r[2]) =>
+RadiusMonotone == Full => \A r \in Radii : RadLeq(r, geo.rad) =>
                              \A c \in Vox(geo.shape) : Neighbours(c, r, geo.shape) \subseteq Neighbours(c, geo.rad, geo.shape)
 
 EmitVol == (geo.kind = "vol" /\ Done /\ (EmitMod = 1 \/ RandomElement(1..EmitMod) = 1)) =>
    PrintT(ToJson([kind |-> "vol", shape |-> geo.shape, mask |-> SortedSeq(geo.mask), rad |-> geo.rad,
                   thr |-> geo.thr, centres |-> geo.centres, neigh |-> geo.neigh]))
 
+(* --------------------------- Topo: structured masks of larger volumes ---- *)
+\* Mask topologies on volumes too large for exhaustive enumeration; p varies position / size.  The stages,
+\* theorems and emission are those of Vol (kind "vol").
+Border(s, v) == \E a \in 1..3 : v[a] = 0 \/ v[a] = s[a] - 1
+Mid(s) == <<s[1] \div 2, s[2] \div 2, s[3] \div 2>>
+TopoKinds == 1..10
+TopoMask(s, kind, p) ==
+  LET N == NVox(s)  U(k) == Unravel(s, k) IN
+  CASE kind = 1 -> LinSet(s)                                                    \* full volume (touches every border)
+    [] kind = 2 -> LinSet(s) \ {(7 * p + 3) % N, (11 * p + N \div 2) % N}       \* one or two single-voxel holes
+    [] kind = 3 -> {(5 * p + N \div 2) % N}                                     \* a single voxel
+    [] kind = 4 -> {k \in LinSet(s) : U(k)[1] <= p % 2 \/ U(k)[1] = s[1] - 1}   \* two slabs at opposite faces
+    [] kind = 5 -> {k \in LinSet(s) : Border(s, U(k))}                          \* hollow shell
+    [] kind = 6 -> {k \in LinSet(s) : ~Border(s, U(k))}                         \* interior only (never touches the border)
+    [] kind = 7 -> {k \in LinSet(s) : (U(k)[1] + U(k)[2] + U(k)[3] + p) % 2 = 0} \* checkerboard (all isolated)
+    [] kind = 8 -> {k \in LinSet(s) : U(k)[3] <= p % s[3]}                       \* slab on one face
+    [] kind = 9 -> {k \in LinSet(s) : (k * 7 + (k \div 5) * 3 + p) % (p + 3) # 0} \* pseudo-random holes
+    [] OTHER    -> {k \in LinSet(s) : D2(U(k), Mid(s)) <= p + 1}                 \* a ball around the middle voxel
+TopoInit == /\ sch = Off
+            /\ \E s \in Shapes : \E kind \in TopoKinds : \E p \in 0..3 : \E r \in Radii : \E t \in Thresholds :
+                  geo = VolInput(s, TopoMask(s, kind, p), r, t)
+
+(* --------------------------- Walk: random walks over masks (tlc -simulate) - *)
+\* A behaviour toggles mask voxels and changes radius / threshold; after every change Solve recomputes the
+\* result from the closed-form definition.  For `tlc -simulate` on volumes with 2^48 masks.  Theorem along
+\* the walk: adding a voxel to the mask never removes an accepted centre (WalkMonotone).
+WalkInit == /\ sch = Off
+            /\ \E s \in Shapes : \E r \in Radii : \E t \in Thresholds : \E full \in BOOLEAN :
+                  geo = [kind |-> "walk", shape |-> s, mask |-> IF full THEN LinSet(s) ELSE {}, rad |-> r, thr |-> t,
+                         stage |-> "dirty", centres |-> <<>>, neigh |-> <<>>, prev |-> <<>>, grew |-> FALSE]
+Toggle(k) == /\ geo.stage = "done"
+             /\ geo' = [geo EXCEPT !.stage = "dirty", !.prev = geo.centres, !.grew = k \notin geo.mask,
+                          !.mask = IF k \in geo.mask THEN geo.mask \ {k} ELSE geo.mask \cup {k}]
+Retune == /\ geo.stage = "done"
+          /\ \E r \in Radii : \E t \in Thresholds :
+               geo' = [geo EXCEPT !.stage = "dirty", !.rad = r, !.thr = t, !.grew = FALSE]
+Solve == /\ geo.stage = "dirty"
+         /\ geo' = [geo EXCEPT !.stage = "done",
+                      !.centres = GoodCentres(geo.shape, geo.mask, geo.rad, geo.thr)]
+WalkNext == ((\E k \in LinSet(geo.shape) : Toggle(k)) \/ Retune \/ Solve) /\ UNCHANGED sch
+WalkMonotone == (geo.kind = "walk" /\ geo.stage = "done" /\ geo.grew) => ToSet(geo.prev) \subseteq ToSet(geo.centres)
+WalkOk == (geo.kind = "walk" /\ geo.stage = "done") =>
+             /\ ToSet(geo.centres) \subseteq geo.mask
+             /\ (geo.thr[1] = 0 => ToSet(geo.centres) = geo.mask)            \* threshold 0 accepts every mask voxel
+EmitWalk == (geo.kind = "walk" /\ geo.stage = "done" /\ geo.centres # <<>> /\ RandomElement(1..EmitMod) = 1) =>
+   PrintT(ToJson([kind |-> "vol", shape |-> geo.shape, mask |-> SortedSeq(geo.mask), rad |-> geo.rad, thr |-> geo.thr,
+                  centres |-> geo.centres,
+                  neigh |-> [i \in 1..Len(geo.centres) |->
+                               SortedSeq(LinOf(geo.shape, NeighboursCode(Unravel(geo.shape, geo.centres[i]),
+                                                                        geo.rad, geo.shape)))]]))
+
 (* --------------------------- Nb: one centre ------------------------------ *)
 NbInit == /\ sch = Off
-          /\ \E s \in NbShapes : \E c \in Vox(s) : \E r \in Radii :
-               geo = [kind |-> "nb", shape |-> s, centre |-> c, rad |-> r, stage |-> "done",
-                      nb |-> NbSeq(c, r, s)]
-NbNext == FALSE /\ UNCHANGED vars
-NbOk == geo.kind = "nb" => /\ ToSet(geo.nb) = Neighbours(geo.centre, geo.rad, geo.shape)
+          /\ \E s \in NbShapes : \E c \in {v \in Vox(s) : Ravel(s, v) % EmitMod = 0} : \E r \in Radii :
+               geo = [kind |-> "nb", shape |-> s, centre |-> c, rad |-> r, stage |-> "input", nb |-> <<>>]
+\* (computed in Next, not in Init: TLC evaluates initial states on a single thread)
+NbNext == /\ geo.stage = "input"
+          /\ geo' = [geo EXCEPT !.stage = "done", !.nb = NbSeq(geo.centre, geo.rad, geo.shape)]
+          /\ UNCHANGED sch
+NbOk == (geo.kind = "nb" /\ geo.stage = "done") => /\ ToSet(geo.nb) = Neighbours(geo.centre, geo.rad, geo.shape)
                            /\ Len(geo.nb) = Cardinality(ToSet(geo.nb))
                            /\ (geo.rad[1] > 0 => geo.centre \in ToSet(geo.nb))
                            \* number of voxels of an unclipped sphere is bounded by the box
                            /\ Len(geo.nb) <= Cardinality(Box(geo.centre, geo.rad, geo.shape))
-EmitNb == geo.kind = "nb" =>
+EmitNb == (geo.kind = "nb" /\ geo.stage = "done") =>
    PrintT(ToJson([kind |-> "nb", shape |-> geo.shape, centre |-> geo.centre, rad |-> geo.rad, nb |-> geo.nb]))
 
 (* --------------------------- chunking ------------------------------------ *)
